@@ -7,13 +7,14 @@ Request (one line):
 `render n=N c=C padn=.. padd=.. ext=.. align=0|1 [var=sin] [labels=<lab>;<lab>;…;] ops=<op>/<op>/…`
 
 * `padn/padd` = `gate_pad` as an exact fraction (`padn` may be negative, `gate_pad ≤ -1` is refused: `bad-op`)
-* `var=` three digits: spanFix, insideNode, globalBox of `Render.Variant` (absent = `000`, the shipped tree)
+* `var=` four digits: spanFix, insideNode, globalBox, measBox of `Render.Variant` (three digits: measBox = 0; absent = `0000`, the shipped tree)
 
 * a string is the list of its code points in decimal joined by `.` (empty string = nothing)
 * `labels=` : every label is *terminated* by `;` (`labels=` is the empty list, key absent = `None`)
 * `<op>` is `g:<name>:<arg_label>:<targets>:<controls>` with `<arg_label>` = `-` (None) or
   `L<string>`, `<targets>` comma separated, `<controls>` = `-` (None) or `c<comma separated>`;
-  or `m:<targets>:<classical_store>`; or `G:<name>:<arg_label>` (gate with targets = controls = None).
+  or `m:<targets>:<classical_store>`; or `M:<targets>` (measurement with classical_store = None);
+  or `G:<name>:<arg_label>` (gate with targets = controls = None).
 
 Answer: `ok <row>|<row>|…` (rows in print order, each row a `.`-joined code point list)
 or `err index` / `err value`.  `widths …` answers `ok w1,w2,…` (row lengths only).
@@ -43,6 +44,9 @@ def parseOp (s : String) : Option Op :=
     let lab ← if lab = "-" then pure none
               else if lab.startsWith "L" then (parseStr (dropFirst lab)).map some else none
     pure (.glob name lab)
+  | ["M", ts] => do
+    let ts ← parseNats ts
+    pure (.measNS ts)
   | ["m", ts, store] => do
     let ts ← parseNats ts
     let st ← store.toNat?
@@ -62,6 +66,10 @@ def parseVariant (s : String) : Option Variant :=
   | [a, b, c] =>
     if [a, b, c].all (fun x => x = '0' || x = '1') then
       some { spanFix := a = '1', insideNode := b = '1', globalBox := c = '1' }
+    else none
+  | [a, b, c, d] =>
+    if [a, b, c, d].all (fun x => x = '0' || x = '1') then
+      some { spanFix := a = '1', insideNode := b = '1', globalBox := c = '1', measBox := d = '1' }
     else none
   | _ => none
 
